@@ -291,6 +291,8 @@ class ThreadScratch:
         self.rows_read = []
         self.oracle = oracle
         self.shape = (nT, n)
+        self.dtype = _np.dtype(object)
+        self.ndim = 2
 
     def _delta(self, it, r):
         lp, i = it
@@ -330,6 +332,17 @@ class ThreadScratch:
                 for idx, v in d.items():
                     row[idx] = row[idx] + X(dl * val(v))
             return row.view(XArray)
+        if isinstance(key, tuple) and len(key) == 2 and type(key[0]).__name__ != "Tid" and not self.oracle.stack:
+            # element read by row number OUTSIDE any prange iteration (the reduction): what thread row r holds under the
+            # symbolic schedule is the sum over the iterations assigned to it
+            r, idx = int(key[0]), int(key[1])
+            self.elems_read = getattr(self, "elems_read", {})
+            self.elems_read[(r, idx)] = self.elems_read.get((r, idx), 0) + 1
+            tot = 0
+            for it, d in self.contrib.items():
+                if idx in d:
+                    tot = tot + X(self._delta(it, r) * val(d[idx]))
+            return tot
         it, idx = self._key(key)
         return self.contrib.get(it, {}).get(idx, 0)
 
